@@ -420,7 +420,10 @@ func (m *vMonC16) judgeLifecycle(h *vHist, o *vTxObs, kind string, lifecycle []s
 				default:
 					spurious(key, typ+"-"+ev, "no such lifecycle event for this object")
 				}
-				if priceOK != nil && !priceOK(typ+"-"+ev) {
+				// (the value an event carries is compared with the object after
+				// the tx; in a multi-message tx a later message may have changed
+				// it again, e.g. create-deployment + update-deployment)
+				if priceOK != nil && len(o.Msgs) == 1 && !priceOK(typ+"-"+ev) {
 					h.Violation("event-carries-object-price", kind+"/"+typ+"-"+ev, fmt.Sprintf("%s event for %s carries price %q", typ+"-"+ev, id, extra[key+"|"+typ+"-"+ev]))
 				}
 			}
@@ -468,10 +471,16 @@ func (m *vMonC16) judgeLifecycle(h *vHist, o *vTxObs, kind string, lifecycle []s
 			n := post.Groups[id]
 			if !pe {
 				// groups are created with their deployment; no event of their own
-				for _, ev := range evs {
-					spurious(key, "group-"+ev, "the group did not exist before this tx")
+				_, bornHere := post.Groups[id]
+				if !(bornHere && len(o.Msgs) > 1) {
+					for _, ev := range evs {
+						spurious(key, "group-"+ev, "the group did not exist before this tx")
+					}
+					continue
 				}
-				continue
+				// created by an earlier message of this tx (create-deployment) and
+				// acted on by a later one: it starts its life open
+				p = dtypes.Group{State: dtypes.GroupOpen}
 			}
 			st := p.State
 			closedSeen := 0
